@@ -13,10 +13,13 @@ package main
 
 import (
 	"context"
+	"crypto"
 	"crypto/ecdsa"
 	"crypto/elliptic"
 	"crypto/rand"
 	"crypto/x509"
+	"crypto/x509/pkix"
+	"encoding/base64"
 	"encoding/hex"
 	"encoding/json"
 	"errors"
@@ -24,13 +27,18 @@ import (
 	"fmt"
 	"io"
 	"log"
+	"net/http"
+	"net/http/httptest"
 	"os"
 	"path/filepath"
 	"strings"
 	"time"
 
 	"go.step.sm/crypto/jose"
+	"go.step.sm/crypto/minica"
+	"go.step.sm/crypto/x509util"
 
+	"github.com/smallstep/certificates/api"
 	"github.com/smallstep/certificates/authority"
 	"github.com/smallstep/certificates/authority/provisioner"
 	"github.com/smallstep/certificates/db"
@@ -49,6 +57,10 @@ type Case struct {
 	Time   string `json:"time"`   // valid | nyv | expired
 	Rev    string `json:"rev"`    // no | yes | err
 	Rekey  bool   `json:"rekey"`
+	// Entry "" = direct call of Authority.Renew/Rekey; "token" = POST /1.0/renew handler with a
+	// renew token (Authorization: Bearer, x5cInsecure) built as Tok says.
+	Entry string `json:"entry,omitempty"`
+	Tok   string `json:"tok,omitempty"` // ok | issp | garbage | badsig | reuse | sub | exp | aud | iss
 }
 
 var (
@@ -57,6 +69,7 @@ var (
 	customs    = []string{"n", "a", "r"}
 	times      = []string{"valid", "nyv", "expired"}
 	revs       = []string{"no", "yes", "err"}
+	tokKinds   = []string{"ok", "ok", "ok", "issp", "garbage", "badsig", "reuse", "sub", "exp", "aud", "iss"}
 )
 
 const provName = "p"
@@ -81,6 +94,31 @@ func (e *errRevDB) GetCertificateData(sn string) (*db.CertificateData, error) {
 	return e.AuthDB.(interface {
 		GetCertificateData(string) (*db.CertificateData, error)
 	}).GetCertificateData(sn)
+}
+
+func backdatedCA() *fixture.CA {
+	mk := func(cn string, ca bool, pathLen int, parent *x509.Certificate, parentKey crypto.Signer) (*x509.Certificate, crypto.Signer) {
+		k, err := ecdsa.GenerateKey(elliptic.P256(), rand.Reader)
+		if err != nil {
+			panic(err)
+		}
+		t := &x509.Certificate{Subject: pkix.Name{CommonName: cn}, NotBefore: time.Now().Add(-24 * time.Hour), NotAfter: time.Now().Add(240 * time.Hour),
+			KeyUsage: x509.KeyUsageCertSign | x509.KeyUsageCRLSign, BasicConstraintsValid: true, IsCA: ca, MaxPathLen: pathLen, MaxPathLenZero: pathLen == 0}
+		signer, p := crypto.Signer(k), t
+		if parent != nil {
+			signer, p = parentKey, parent
+		}
+		c, err := x509util.CreateCertificate(t, p, k.Public(), signer)
+		if err != nil {
+			panic(err)
+		}
+		return c, k
+	}
+	root, rootKey := mk("Verif Root CA", true, 1, nil, nil)
+	inter, interKey := mk("Verif Intermediate CA", true, 0, root, rootKey)
+	su, _ := ecdsa.GenerateKey(elliptic.P256(), rand.Reader)
+	sh, _ := ecdsa.GenerateKey(elliptic.P256(), rand.Reader)
+	return &fixture.CA{MiniCA: &minica.CA{Root: root, Intermediate: inter, Signer: interKey}, JWK: newKey(), SSHUser: su, SSHHost: sh}
 }
 
 func newKey() *jose.JSONWebKey {
@@ -119,9 +157,9 @@ func (w *world) build(provs provisioner.List, withDB bool, ssh bool, extra ...au
 func newWorld() *world {
 	w := &world{issuers: map[string]*fixture.CA{}, renewer: map[string]*fixture.CA{}}
 	var err error
-	if w.base, err = fixture.New(fixture.Opts{NoDB: true, SSH: true}); err != nil {
-		panic(err)
-	}
+	// key material: a CA whose certificates are a day old (a renew token is verified at
+	// leaf.NotAfter - 1 minute, which for a just-expired leaf lies before "now")
+	w.base = backdatedCA()
 	if w.dir, err = os.MkdirTemp("", "verif-c09g-"); err != nil {
 		panic(err)
 	}
@@ -234,6 +272,8 @@ func modelFields(c Case, nyv, exp bool) string {
 type prepared struct {
 	c    Case
 	cert *x509.Certificate
+	key  crypto.Signer
+	name string
 	err  string
 }
 
@@ -247,7 +287,7 @@ func (w *world) issue(c Case) prepared {
 	if err != nil {
 		return prepared{c: c, err: "token"}
 	}
-	csr, _, err := fixture.CSR(name, []string{name})
+	csr, priv, err := fixture.CSR(name, []string{name})
 	if err != nil {
 		return prepared{c: c, err: "csr"}
 	}
@@ -291,7 +331,68 @@ func (w *world) issue(c Case) prepared {
 			return prepared{c: c, err: "revoke"}
 		}
 	}
-	return prepared{c: c, cert: leaf}
+	return prepared{c: c, cert: leaf, key: priv, name: name}
+}
+
+// renewToken builds the token `step ca renew` sends for an expired certificate.
+func (w *world) renewToken(p prepared) string {
+	kind := p.c.Tok
+	if kind == "garbage" {
+		return "eyJhbGciOiJFUzI1NiJ9.e30.AAAA"
+	}
+	signer := p.key
+	if kind == "badsig" {
+		signer, _ = ecdsa.GenerateKey(elliptic.P256(), rand.Reader)
+	}
+	x5c := []string{base64.StdEncoding.EncodeToString(p.cert.Raw), base64.StdEncoding.EncodeToString(w.base.MiniCA.Intermediate.Raw)}
+	so := new(jose.SignerOptions).WithType("JWT").WithHeader("x5cInsecure", x5c)
+	sig, err := jose.NewSigner(jose.SigningKey{Algorithm: jose.ES256, Key: signer}, so)
+	if err != nil {
+		panic(err)
+	}
+	now := time.Now()
+	claims := map[string]any{
+		"iss": "step-ca-client/1.0", "sub": p.name, "aud": fixture.Audience("/1.0/renew"),
+		"iat": now.Unix(), "nbf": now.Add(-time.Second).Unix(), "exp": now.Add(5 * time.Minute).Unix(),
+		"jti": fmt.Sprintf("c09-%d-%d", now.UnixNano(), counter),
+	}
+	switch kind {
+	case "issp":
+		claims["iss"] = provName // old clients used the provisioner name
+	case "sub":
+		claims["sub"] = "other." + p.name
+	case "exp":
+		claims["nbf"], claims["iat"], claims["exp"] = now.Add(-time.Hour).Unix(), now.Add(-time.Hour).Unix(), now.Add(-10*time.Minute).Unix()
+	case "aud":
+		claims["aud"] = fixture.Audience("/1.0/sign")
+	case "iss":
+		claims["iss"] = "somebody-else"
+	}
+	tok, err := jose.Signed(sig).Claims(claims).CompactSerialize()
+	if err != nil {
+		panic(err)
+	}
+	return tok
+}
+
+// tokenBits = parses, claimsVerify, tokenUnused, claimsValid, audienceOk, issuerOk of the model's Entry.token
+func tokenBits(c Case) string {
+	b := map[string]string{"ok": "111111", "issp": "111111", "garbage": "011111", "badsig": "101111",
+		"reuse": "110111", "sub": "111011", "exp": "111011", "aud": "111101", "iss": "111110"}
+	return b[c.Tok]
+}
+
+func (w *world) postRenew(ca *fixture.CA, tok string) int {
+	req := httptest.NewRequest(http.MethodPost, "https://"+fixture.DNSName+"/1.0/renew", nil)
+	req.Header.Set("Authorization", "Bearer "+tok)
+	req = req.WithContext(authority.NewContext(context.Background(), ca.Auth))
+	rec := httptest.NewRecorder()
+	api.Renew(rec, req)
+	if os.Getenv("C09_DEBUG") != "" && rec.Code != http.StatusCreated {
+		_, err := ca.Auth.AuthorizeRenewToken(context.Background(), tok)
+		fmt.Fprintf(os.Stderr, "%d %s / direct: %+v\n", rec.Code, rec.Body.String(), err)
+	}
+	return rec.Code
 }
 
 func classify(err error) string {
@@ -337,6 +438,18 @@ func (w *world) renew(p prepared) (out string, nyv, exp, stable bool) {
 		}()
 		var chain []*x509.Certificate
 		var err error
+		if p.c.Entry == "token" {
+			tok := w.renewToken(p)
+			if p.c.Tok == "reuse" {
+				w.postRenew(ca, tok)
+			}
+			if code := w.postRenew(ca, tok); code == http.StatusCreated {
+				out = "allow"
+			} else {
+				out = "refuse"
+			}
+			return
+		}
 		if p.c.Rekey {
 			k, kerr := ecdsa.GenerateKey(elliptic.P256(), rand.Reader)
 			if kerr != nil {
@@ -383,6 +496,15 @@ func fixedCases() []Case {
 			add(Case{Issue: "dbonly", State: "removed", Custom: cu, Time: tm, Rev: "no", Rekey: true})
 		}
 	}
+	for _, tk := range tokKinds[2:] {
+		add(Case{Issue: "both", State: "present", A: true, Custom: "n", Time: "expired", Rev: "no", Entry: "token", Tok: tk})
+		add(Case{Issue: "both", State: "present", Custom: "n", Time: "valid", Rev: "no", Entry: "token", Tok: tk})
+	}
+	for _, is := range issueKinds {
+		for _, st := range []string{"present", "removed", "uninit"} {
+			add(Case{Issue: is, State: st, Custom: "n", Time: "valid", Rev: "no", Entry: "token", Tok: "ok"})
+		}
+	}
 	for _, rv := range revs {
 		add(Case{Issue: "both", State: "present", Custom: "n", Time: "valid", Rev: rv})
 		add(Case{Issue: "none", State: "removed", Custom: "a", Time: "valid", Rev: rv, Rekey: true})
@@ -401,6 +523,9 @@ func randomCase(r *common.Rng) Case {
 	}
 	if r.Chance(1, 6) {
 		c.Rev = common.Pick(r, revs)
+	}
+	if r.Chance(1, 4) { // the renew-token entry (renew only)
+		c.Entry, c.Tok, c.Rekey = "token", common.Pick(r, tokKinds), false
 	}
 	if r.Chance(1, 2) { // bias to the interesting half: provisioner present, decisions by claims and time
 		c.State = "present"
@@ -494,6 +619,9 @@ func main() {
 			continue
 		}
 		mf := modelFields(p.c, nyv, exp)
+		if p.c.Entry == "token" {
+			mf += " entry=token tok=" + tokenBits(p.c)
+		}
 		out.Case("gate mode=coded op="+op+" "+mf+tail, res)
 		cls := res
 		if i := strings.Index(cls, ":"); i >= 0 {
